@@ -103,6 +103,65 @@ Section Leapfrog.
         + rewrite det_mmul, HD, det_Lmat. ring.
     Qed.
   End Volume.
+
+  (** ** volume preservation for an arbitrary gradient, at the level of tangent maps (one coordinate).
+      [G'] stands for the derivative of the gradient [G]; [lfT s d] is the forward-mode tangent of one
+      leapfrog step at [s] in direction [d] computed by the chain rule.  The Jacobian of a step is a
+      product of three shears, so it has determinant 1 whatever [G] and [G'] are, and so has the
+      Jacobian of any number of steps. *)
+  Section Tangent.
+    Variable G' : R -> R.
+
+    Definition lfT (s d : R * R) : R * R :=
+      let '(x, p) := s in let '(dx, dp) := d in
+      let p1 := add p (mul h (G x)) in
+      let dp1 := add dp (mul h (mul (G' x) dx)) in
+      let x1 := add x (mul e p1) in
+      let dx1 := add dx (mul e dp1) in
+      (dx1, add dp1 (mul h (mul (G' x1) dx1))).
+
+    Definition Jstep (s : R * R) : mat :=
+      let '(x, p) := s in
+      let h1 := G' x in
+      let x1 := add x (mul e (add p (mul h (G x)))) in
+      let h2 := G' x1 in
+      let m11 := add one (mul (mul e h) h1) in
+      (m11, e, add (mul h h1) (mul (mul h h2) m11), add one (mul (mul h h2) e)).
+
+    Definition mapply (M : mat) (d : R * R) : R * R :=
+      let '(m11, m12, m21, m22) := M in
+      (add (mul m11 (fst d)) (mul m12 (snd d)), add (mul m21 (fst d)) (mul m22 (snd d))).
+
+    Lemma lfT_Jstep s d : lfT s d = mapply (Jstep s) d.
+    Proof. destruct s as [x p], d as [dx dp]. unfold lfT, Jstep, mapply. cbn [fst snd]. f_equal; ring. Qed.
+
+    Lemma det_Jstep s : det (Jstep s) = one.
+    Proof. destruct s as [x p]. unfold det, Jstep. ring. Qed.
+
+    Lemma mapply_mmul M N d : mapply (mmul M N) d = mapply M (mapply N d).
+    Proof.
+      destruct M as [[[m11 m12] m21] m22], N as [[[n11 n12] n21] n22], d as [dx dp].
+      unfold mapply, mmul. cbn [fst snd]. f_equal; ring.
+    Qed.
+
+    (** tangent of n steps, and its Jacobian *)
+    Fixpoint iterT (n : nat) (s d : R * R) : R * R :=
+      match n with O => d | S n' => iterT n' (lf s) (lfT s d) end.
+    Fixpoint Jn (n : nat) (s : R * R) : mat :=
+      match n with O => (one, zero, zero, one) | S n' => mmul (Jn n' (lf s)) (Jstep s) end.
+
+    Theorem leapfrog_tangent_volume n : forall s,
+      (forall d, iterT n s d = mapply (Jn n s) d) /\ det (Jn n s) = one.
+    Proof.
+      induction n as [|n IH]; intros s.
+      - split.
+        + intros [dx dp]. unfold mapply. cbn [iterT Jn fst snd]. f_equal; ring.
+        + unfold det. cbn [Jn]. ring.
+      - destruct (IH (lf s)) as [HT HD]. split.
+        + intros d. cbn [iterT Jn]. rewrite HT, lfT_Jstep, mapply_mmul. reflexivity.
+        + cbn [Jn]. rewrite det_mmul, HD, det_Jstep. ring.
+    Qed.
+  End Tangent.
 End Leapfrog.
 
 (** ** Metropolis-Hastings balance: with acceptance probability min(1, b/a)
